@@ -940,6 +940,15 @@ func (env *Env) callSpec(e *ECall) (SVal, error) {
 			return SVal{}, fmt.Errorf("arrOf wants a slice")
 		}
 		return intV(v.L[0]), nil
+	case "offOf":
+		v, err := env.evalRV(e.Args[0])
+		if err != nil {
+			return SVal{}, err
+		}
+		if len(v.L) != 3 {
+			return SVal{}, fmt.Errorf("offOf wants a slice")
+		}
+		return intV(v.L[1]), nil
 	case "typeTag":
 		v, err := env.evalRV(e.Args[0])
 		if err != nil {
